@@ -132,10 +132,15 @@ theorem mergeRemoteRtx_codec (remote : List Media) (mid : Str) (fa : List Str ×
     · exact h
     · exact foldl_appendRtx_codec _ _ _ _ h
 
-theorem t38Attrs_codec : AllCodec t38Attrs := by
+theorem t38Attrs_codec (l : List T38Cap) : AllCodec (l.flatMap t38AttrsOf) := by
   intro a ha
-  simp only [t38Attrs, List.mem_cons, List.mem_nil_iff, or_false] at ha
-  rcases ha with h | h | h | h | h | h <;> subst h <;> unfold CodecKey <;> decide
+  obtain ⟨t, _, ha⟩ := List.mem_flatMap.mp ha
+  simp only [t38AttrsOf, List.mem_cons, List.mem_nil_iff, or_false] at ha
+  have hk : a.key = "T38FaxVersion".toList ∨ a.key = "T38MaxBitRate".toList ∨ a.key = "T38FaxRateManagement".toList ∨
+      a.key = "T38FaxMaxBuffer".toList ∨ a.key = "T38FaxMaxDatagram".toList ∨ a.key = "T38FaxUdpEC".toList := by
+    rcases ha with h | h | h | h | h | h <;> subst h <;> simp [attr]
+  unfold CodecKey
+  rcases hk with h | h | h | h | h | h <;> rw [h] <;> decide
 
 /-- the codec part (before the extmap / setup attributes are appended) only produces codec keys -/
 theorem codecPart_codec (c : Cfg) (k : Kind) (remote : List Media) (hasLocal : Bool) (mid : Str) :
@@ -152,7 +157,7 @@ theorem codecPart_codec (c : Cfg) (k : Kind) (remote : List Media) (hasLocal : B
     intro a ha
     simp only [List.mem_singleton] at ha
     subst ha; right; right; right; right; left; rfl
-  | image => exact t38Attrs_codec
+  | image => exact t38Attrs_codec _
 
 /-- two lists related position by position -/
 inductive Aligned {α β : Type} (R : α → β → Prop) : List α → List β → Prop
